@@ -8,7 +8,7 @@ EXTENDS MuxCache, TLCExt, Json, IOUtils
 CONSTANT Depth
 ASSUME TLCSet(2, 0)
 Emit ==
-  \/ TLCGet("level") < Depth
+  \/ TLCGet("level") # Depth
   \/ /\ TLCSet(2, TLCGet(2) + 1)
      /\ ndJsonSerialize(IOEnv.VERIF_PLANDIR \o "/p" \o ToString(TLCGet(2)) \o ".ndjson",
                         [i \in 1..Len(Trace) |-> Trace[i].last])
